@@ -18,7 +18,7 @@ INFO = {
                   "MultiImage.to_scalar_multi_image", "MultiImage.from_scalar_multi_image"],
     "bounds": {
         "quick": "GroupAverage: G in {B_d, rotations, C2^d, C4, C2, trivial}, d=2 N=3, d=3 N=2 (B_3, C2^3); signatures incl. (0,1),(1,1); all h in G. "
-                 "Climate1D: (lon,lat) in {(3,2),(4,3)}, past in {1,2}, future=1, constants {none, scalar, scalar+pseudoscalar}, both insertion orders",
+                 "Climate1D: (lon,lat) in {(3,2),(4,3)}, past in {1,2}, future=1 (+ (past,future) in {(2,2),(1,2),(2,3)} on (3,2)), constants {none, scalar, scalar+pseudoscalar}, both insertion orders",
         "thorough": "adds d=3 rotations (24), (lon,lat)=(4,4), past=future=2 round trip",
     },
     "outside": ["inner models with several input shapes; aux_data / batch statistics (Climate1D asserts None)"],
@@ -68,6 +68,12 @@ def cells(tier, seed):
                     if tier == "quick" and dims == (4, 3) and const == "scalar":
                         continue
                     out.append({"w": "climate", "dims": dims, "past": past, "const": const, "order": order})
+    # several future steps per dynamic channel (channel bookkeeping c = size // future_steps in from1d); past == future: round trip
+    for past, fut, const, order in [(2, 2, "none", 0), (2, 2, "none", 1), (1, 2, "scalar", 1), (2, 3, "both", 0)]:
+        out.append({"w": "climate", "dims": (3, 2), "past": past, "future": fut, "const": const, "order": order})
+    if tier == "thorough":
+        out.append({"w": "climate", "dims": (4, 3), "past": 2, "future": 2, "const": "none", "order": 1})
+        out.append({"w": "climate", "dims": (4, 3), "past": 3, "future": 2, "const": "both", "order": 0})
     out.append({"w": "wrapper", "D": 2, "N": 2, "lead": 1})
     out.append({"w": "wrapper", "D": 3, "N": 2, "lead": 1})
     return out
@@ -189,11 +195,12 @@ def _climate(cfg, cx):
         dyn = dyn + [((0, 1), 1)] if cfg["order"] == 0 else [((0, 1), 1)] + dyn
     const = {"none": {}, "scalar": {(0, 0): 1}, "both": {(0, 0): 1, (0, 1): 2}}[cfg["const"]]
     flags = (True, False)
-    out_keys = tuple((q, c) for q, c in dyn)  # future = 1 step per dynamic channel
+    fut = cfg.get("future", 1)
+    out_keys = tuple((q, c * fut) for q, c in dyn)  # `fut` future steps per dynamic channel
     sig1d = models.Climate1D.get_1d_signature(geom.Signature(out_keys), n_lats)
     inner = stubs.make_uf_model("c", [(tuple(q), c) for q, c in sig1d])
-    cl = models.Climate1D(inner, geom.Signature(out_keys), past, 1, (n_lons, n_lats), dict(const), flags)
-    ckey = f"dims={cfg['dims']}:past={past}:const={cfg['const']}:order={cfg['order']}"
+    cl = models.Climate1D(inner, geom.Signature(out_keys), past, fut, (n_lons, n_lats), dict(const), flags)
+    ckey = f"dims={cfg['dims']}:past={past}:const={cfg['const']}:order={cfg['order']}" + (f":future={fut}" if fut != 1 else "")
     # input: per type dynamic channels*past (+ constants appended on the channel axis)
     types = [q for q, _ in dyn] + [q for q in const if q not in dict(dyn)]
     chans = {q: dict(dyn).get(q, 0) * past + const.get(q, 0) for q in types}
@@ -234,7 +241,7 @@ def _climate(cfg, cx):
                      refs.ref_action(1, np.asarray(cl.to1d(mk({r: jnp.asarray(cx.conc(v, vals)) for r, v in x.items()}))[q]), q[1], f1, lead=1)))
     # 1-D signature bookkeeping: to1d's channel counts equal get_1d_signature of the input's dynamic+constant layout
     # lossless re-layout: from1d(to1d(x)) == x on the dynamic part when past == future(=1) and there are no constants
-    if past == 1 and not const:
+    if past == fut and not const:
         rt = I.sym_call(lambda xb: dict(cl.from1d(cl.to1d(mk(xb))).data), x)
         for q in x:
             if q in rt:
